@@ -282,7 +282,18 @@ func RunReplay(t T, harnesses map[string]func()) {
 		if !ok {
 			continue
 		}
-		results = append(results, runCase(c, h))
+		res := runCase(c, h)
+		// a model that fixes the outcome of math/rand cannot be forced natively: retry until the same draw occurs
+		usesRand := false
+		for name := range c.Inputs {
+			if strings.HasPrefix(name, "rand#") || strings.HasPrefix(name, "randf#") {
+				usesRand = true
+			}
+		}
+		for try := 0; usesRand && try < 300 && !res.Failed && !res.Panicked; try++ {
+			res = runCase(c, h)
+		}
+		results = append(results, res)
 	}
 	out := os.Getenv("VERIF_REPLAY_OUT")
 	if out == "" {
